@@ -125,6 +125,7 @@ type explorer struct {
 	f        *ssa.Function
 	atoms    map[string]absVal
 	atomFn   func(expr string) (absVal, bool) // pattern atoms (consulted after the exact map)
+	canon    map[string]string                // actual parameter name -> canonical role name used by the rule (renaming a parameter must not matter)
 	stop     func(*ssa.BasicBlock) bool
 	maxPaths int
 	out      []*pathOutcome
@@ -320,9 +321,9 @@ func (e *explorer) val(st *exState, v ssa.Value) symVal {
 	case *ssa.Const:
 		return constSym(v)
 	case *ssa.Parameter:
-		return e.atom(symVal{expr: v.Name()})
+		return e.atom(symVal{expr: e.cn(v.Name())})
 	case *ssa.FreeVar:
-		return e.atom(symVal{expr: v.Name()})
+		return e.atom(symVal{expr: e.cn(v.Name())})
 	case *ssa.Global:
 		return symVal{expr: v.Name()}
 	case *ssa.Function:
@@ -438,7 +439,7 @@ func (e *explorer) addrExpr(st *exState, a ssa.Value) string {
 		return e.locBase(st, a.X) + "[" + e.val(st, a.Index).expr + "]"
 	case *ssa.Alloc:
 		if a.Comment != "" {
-			return a.Comment
+			return e.cn(a.Comment)
 		}
 		return a.Name()
 	}
@@ -452,7 +453,7 @@ func (e *explorer) locBase(st *exState, x ssa.Value) string {
 		return e.addrExpr(st, x)
 	case *ssa.Alloc:
 		if x.Comment != "" {
-			return x.Comment
+			return e.cn(x.Comment)
 		}
 	}
 	return e.val(st, x).expr
@@ -538,7 +539,7 @@ func (e *explorer) eval(st *exState, v ssa.Value) symVal {
 		return e.atom(symVal{expr: fmt.Sprintf("%s#%d", e.val(st, v.Tuple).expr, v.Index)})
 	case *ssa.Alloc:
 		if v.Comment != "" {
-			return symVal{expr: "&" + v.Comment}
+			return symVal{expr: "&" + e.cn(v.Comment)}
 		}
 		return symVal{expr: "&" + v.Name()}
 	case *ssa.Slice:
@@ -801,4 +802,23 @@ func mentions(expr, atom string) bool {
 
 func isIdentChar(b byte) bool {
 	return b == '_' || b == '.' || (b >= '0' && b <= '9') || (b >= 'a' && b <= 'z') || (b >= 'A' && b <= 'Z')
+}
+
+// cn maps an actual parameter name to the rule's canonical role name.
+func (e *explorer) cn(name string) string {
+	if c, ok := e.canon[name]; ok {
+		return c
+	}
+	return name
+}
+
+// canonParams builds the renaming for f: its parameters (receiver first) get the given role names by position.
+func canonParams(f *ssa.Function, roles ...string) map[string]string {
+	m := map[string]string{}
+	for i, p := range f.Params {
+		if i < len(roles) && roles[i] != "" && p.Name() != roles[i] {
+			m[p.Name()] = roles[i]
+		}
+	}
+	return m
 }
